@@ -166,6 +166,18 @@ def run(c, prog, ctx):
     # every data character: the loop iterates self.data (whole slice)
     it = [show(p.operand(t["args"][0]), -9) for bi, t in b.calls(lambda t: callee_name(t).endswith("Iterator::map") or callee_name(t).endswith("::map"))]
     ob("O4.all-characters", "the engine is fed every element of self.data", any(x == "arg1.data" for x in it), "mapped iterators %s" % it, fv.where(), fv.path)
+    # a character becomes a field element through the bech32 crate's Fe32::from_char, in the checksum engine's feed and in the
+    # byte conversion alike (a local table that maps two characters to one symbol makes their exchange invisible to the checksum)
+    conv = {}
+    for fnp in ("blech32::decode::UncheckedHrpstring::<'s>::validate_checksum::{closure#0}",
+                "<blech32::decode::AsciiToFe32Iter<I> as std::iter::Iterator>::next::{closure#0}"):
+        if prog.has_fn(fnp):
+            conv[fnp.rsplit("::", 2)[-2] + "::" + fnp.rsplit("::", 1)[-1]] = show(Prov(prog.fn(fnp).body).local(0), -9)
+    local_fe = [pth for pth in prog.fns if pth.startswith("blech32::") and any("Fe32::from_u8" in callee_name(t) or "Fe32::try_from" in callee_name(t) or "TryFrom<" in callee_name(t) and "Fe32" in callee_name(t)
+                                                                               for bi, t in prog.fns[pth].body.calls())]
+    ob("O4.char-to-symbol", "characters are converted with bech32::Fe32::from_char only (no local character table)",
+       len(conv) == 2 and all(v in ("bech32::Fe32::from_char(arg2)", "bech32::Fe32::from_char(std::convert::From::from(arg2))") for v in conv.values()) and not local_fe,
+       "conversions %s; local functions constructing field elements from integers: %s" % (conv, local_fe), fv.where(), fv.path)
     lc = [e for e in errs if "InvalidChecksumLength" in e[1]]
     ob("O4.length-guard", "data shorter than CHECKSUM_LENGTH rejected", len(lc) == 1 and any("CHECKSUM_LENGTH" in d and " Lt " in d and l == "true" for d, l in lc[0][2]),
        "errors %s" % [(e[1], e[2][-1:]) for e in lc], fv.where(), fv.path)
